@@ -22,9 +22,9 @@ Definition hand_disc_instr (prog : list instr) (i : instr) : bool :=
 Definition hand_disc (N : net) : bool :=
   forallb (fun d => forallb (hand_disc_instr (d_prog d)) (d_prog d)) (n_procs N).
 
-Definition holding (N : net) (p : pid) (pr : proc) : Prop :=
-  (p_st pr = PRun \/ p_st pr = PAbandoned) /\
-  exists d i, nth_error (n_procs N) p = Some d /\ nth_error (d_prog d) (p_pc pr) = Some i /\ holds i = true.
+Notation holding N p pr :=
+  ((p_st pr = PRun \/ p_st pr = PAbandoned) /\
+   exists d i, nth_error (n_procs N) p = Some d /\ nth_error (d_prog d) (p_pc pr) = Some i /\ holds i = true).
 
 Definition hinv (N : net) (s : state) : Prop :=
   forall p pr, nth_error (s_procs s) p = Some pr -> p_hand pr = None \/ holding N p pr.
@@ -58,9 +58,13 @@ Proof.
          | _ => rewrite (X _ eq_refl); cbn [p_hand p_st p_pc goto goto_h]; auto; fail
          end).
   - (* ISpawn, started *)
-    erewrite (X2 q _ _); [cbn [p_hand goto]; auto|]. unf. cbn [s_procs]. now rewrite start_procs.
+    match goal with _ : nth_error (s_procs (setp (start _ _ ?q0 ?qp0 ?c0) _ ?y0)) _ = Some _ |- _ =>
+      rewrite (X2 q0 (mkProc PRun 0 (p_hand qp0) c0) y0) by (unf; cbn [s_procs]; now rewrite start_procs) end.
+    cbn [p_hand goto]; auto.
   - (* IGoOnce, started *)
-    erewrite (X2 q _ _); [cbn [p_hand goto]; auto|]. unf. cbn [s_procs]. now rewrite start_procs.
+    match goal with _ : nth_error (s_procs (setp (start _ _ ?q0 ?qp0 ?c0) _ ?y0)) _ = Some _ |- _ =>
+      rewrite (X2 q0 (mkProc PRun 0 (p_hand qp0) c0) y0) by (unf; cbn [s_procs]; now rewrite start_procs) end.
+    cbn [p_hand goto]; auto.
   - (* IExit *)
     rewrite (X (mkProc PDone (p_pc pr) None (p_ctx pr))); [auto|]. unf. destruct (d_wg d); reflexivity.
 Qed.
@@ -70,7 +74,7 @@ Proof.
   intros Hd I H p0 pr0 Hp0.
   assert (SAME : forall pr, nth_error (s_procs s) p0 = Some pr -> p_hand pr0 = p_hand pr -> p_pc pr0 = p_pc pr ->
                  (p_st pr0 = p_st pr \/ p_st pr0 = PAbandoned /\ p_st pr = PRun) -> p_hand pr0 = None \/ holding N p0 pr0).
-  { intros pr Hp Eh Epc Est. destruct (I _ _ Hp) as [E|((Es & dd & ii & H1 & H2 & H3))]; [left; congruence|right].
+  { intros pr Hp Eh Epc Est. destruct (I _ _ Hp) as [E|(Es & dd & ii & H1 & H2 & H3)]; [left; congruence|right].
     split; [destruct Est as [E|(E & _)]; [rewrite E; exact Es|auto]|]. exists dd, ii. rewrite Epc. auto. }
   destruct l; cbn [step] in H.
   - destruct (cur_instr N s p) as [[[pr d] i]|] eqn:Ec; [|discriminate].
@@ -84,7 +88,7 @@ Proof.
     + destruct Hsh as [pr' E1 _ _ _ | pr' _ _ _ E1 _ _ | q qp c pr' _ Hq Hqs _ _ E1 _ _ _ | q g k qp pr' _ _ _ E1 _ _ _];
         rewrite E1 in Hp0; rewrite nth_error_upd_other in Hp0 by auto; try (eapply I; eauto; fail).
       apply nth_error_upd in Hp0 as [[-> ->]|[Hn2 Hp0]]; [|eapply I; eauto].
-      left. cbn [p_hand]. destruct (I _ _ Hq) as [E|((Es|Es) & _)]; [auto|congruence|congruence].
+      left. cbn [p_hand]. destruct (I _ _ Hq) as [E|([Es|Es] & _)]; [auto|congruence|congruence].
   - destruct (p =? q) eqn:Epq; [discriminate|]. apply Nat.eqb_neq in Epq.
     destruct (cur_instr N s p) as [[[pr d] i]|] eqn:Ec; [|discriminate]. destruct i; try discriminate.
     destruct (cur_instr N s q) as [[[qr dq] iq]|] eqn:Eq; [|discriminate]. destruct iq; try discriminate.
@@ -157,7 +161,7 @@ Proof.
   - destruct (cur_instr N s p) as [[[pr d] i]|] eqn:Ec; [|discriminate].
     destruct i; cbn [exec] in H; exec_cases H; inv H; unfold start; cbv zeta; unf;
       repeat match goal with |- context [if ?b then _ else _] => destruct b end; cbn [s_canc]; auto.
-    right. do 5 eexists. split; reflexivity.
+    right. do 5 eexists. split; [reflexivity|exact Ec].
   - destruct (p =? q); [discriminate|].
     destruct (cur_instr N s p) as [[[pr d] i]|]; [|discriminate]. destruct i; try discriminate.
     destruct (cur_instr N s q) as [[[qr dq] iq]|]; [|discriminate]. destruct iq; try discriminate.
@@ -175,3 +179,226 @@ Proof.
     apply nth_error_upd in Hp' as [[_ ->]|[Hn _]]; try congruence; cbn [p_pc goto goto_h] in Hne; try congruence; auto.
   right. unfold closedb. match goal with E : nth_error (s_chans s) _ = Some _ |- _ => rewrite E end. assumption.
 Qed.
+
+(* ---- where a running goroutine's pc comes from ---- *)
+Lemma pc_step N s l s' p pr' :
+  step N s l = Some s' -> nth_error (s_procs s') p = Some pr' -> p_st pr' = PRun ->
+  nth_error (s_procs s) p = Some pr'
+  \/ (p_pc pr' = 0 /\ exists pr, nth_error (s_procs s) p = Some pr /\ p_st pr = PNotStarted)
+  \/ (exists arm pr d i, l = LStep p arm /\ cur_instr N s p = Some (pr, d, i) /\ In (p_pc pr') (targets i))
+  \/ (exists q pr d ch g ko ke kr, l = LRdv p q /\ cur_instr N s p = Some (pr, d, ISend ch g ko ke kr) /\ p_pc pr' = ko)
+  \/ (exists q pr d ch g ki ke kr, l = LRdv q p /\ cur_instr N s p = Some (pr, d, IRecv ch g ki ke kr) /\ p_pc pr' = ki).
+Proof.
+  intros H Hp' Hr'. destruct l; cbn [step] in H.
+  - destruct (cur_instr N s p0) as [[[pr0 d0] i0]|] eqn:Ec; [|discriminate].
+    pose proof Ec as Ec0. apply cur_instr_inv in Ec as (Hp0 & _ & Hr0 & _).
+    pose proof (exec_shape _ _ _ _ _ _ _ _ Hp0 Hr0 H) as Hsh.
+    destruct (Nat.eq_dec p p0) as [->|Hn].
+    + right. right. left. exists arm, pr0, d0, i0. split; [reflexivity|split; [exact Ec0|]].
+      destruct Hsh as [pr1 E1 _ _ (_ & M2 & _) | pr1 _ Est _ E1 _ _ | q qp c pr1 _ _ _ _ _ E1 _ _ (_ & M2 & _) | q g k qp pr1 _ _ _ E1 _ _ (_ & M2 & _)];
+        rewrite E1 in Hp'; apply nth_error_upd in Hp' as [[_ ->]|[Hx _]]; try congruence; auto.
+    + destruct Hsh as [pr1 E1 _ _ _ | pr1 _ _ _ E1 _ _ | q qp c pr1 _ Hq Hqs _ _ E1 _ _ _ | q g k qp pr1 _ _ _ E1 _ _ _];
+        rewrite E1 in Hp'; rewrite nth_error_upd_other in Hp' by auto; auto.
+      apply nth_error_upd in Hp' as [[-> ->]|[Hx Hp']]; auto.
+      right. left. split; [reflexivity|eauto].
+  - destruct (p0 =? q) eqn:Epq; [discriminate|]. apply Nat.eqb_neq in Epq.
+    destruct (cur_instr N s p0) as [[[pr0 d0] i0]|] eqn:Ec; [|discriminate]. destruct i0; try discriminate.
+    destruct (cur_instr N s q) as [[[qr dq] iq]|] eqn:Eq; [|discriminate]. destruct iq; try discriminate.
+    exec_cases H. inv H. unf. cbn [s_procs] in Hp'.
+    apply nth_error_upd in Hp' as [[-> ->]|[Hn Hp']].
+    + do 4 right. exists p0. do 7 eexists. split; [reflexivity|split; [exact Eq|reflexivity]].
+    + apply nth_error_upd in Hp' as [[-> ->]|[Hn2 Hp']]; auto.
+      do 3 right. left. exists q. do 7 eexists. split; [reflexivity|split; [exact Ec|reflexivity]].
+  - exec_cases H. inv H. auto.
+  - inv H. auto.
+  - inv H. auto.
+  - exec_cases H; inv H. unfold set_stopped in Hp'. unf. cbn [s_procs] in Hp'.
+    apply nth_error_upd in Hp' as [[-> ->]|[Hn Hp']]; [discriminate|auto].
+Qed.
+
+Lemma cancelled_nonempty N s c : cancelledb N s c = true -> s_canc s <> [].
+Proof. unfold cancelledb. intros H E. rewrite E in H. discriminate. Qed.
+
+Lemma hd_cons_init n out : forallb (hand_disc_instr (cons_init_prog n out)) (cons_init_prog n out) = true.
+Proof.
+  apply forallb_forall. intros i Hi. apply In_nth_error in Hi as (k & Hk).
+  apply cons_instr_cases in Hk as [(_ & ->)|[(_ & ->)|(m & _ & Hm)]]; try reflexivity.
+  destruct m as [|[|[|[|[|[|m]]]]]]; cbn in Hm; try (destruct m; discriminate); inv Hm; try reflexivity.
+  unfold hand_disc_instr. cbn [takes]. unfold holds_at. replace (n + 3) with (n + 1 + 2) by lia. rewrite cons_init_hi. reflexivity.
+Qed.
+
+Lemma hand_disc_gen_net n e : hand_disc (gen_net n e) = true.
+Proof.
+  unfold hand_disc. cbn [gen_net n_procs]. apply forallb_app'.
+  - cbn [forallb usr bg d_prog]. rewrite hd_cons_init. reflexivity.
+  - apply forallb_map_seq. intros j _. destruct e; reflexivity.
+Qed.
+
+(* ================================================================ GenerateParallel, generator ends with io.EOF *)
+Section GenEof.
+Variable n : nat.
+Notation N := (gen_net n GEof).
+
+Lemma G0 : nth_error (n_procs N) 0 = Some (usr (cons_init_prog n 0)). Proof. reflexivity. Qed.
+Lemma G2 : nth_error (n_procs N) 2 = Some (bg (closer_prog 0)). Proof. reflexivity. Qed.
+Lemma Gw j : j < n -> nth_error (n_procs N) (3 + j) = Some (wgp (gen_prog GEof)).
+Proof. intros H. cbn [gen_net n_procs]. exact (nth_workers _ _ _ (fun _ => wgp (gen_prog GEof)) n j H). Qed.
+Lemma Gwk j : j < n -> exists prog, nth_error (n_procs N) (3 + j) = Some (wgp prog).
+Proof. intros H. eexists. apply Gw. exact H. Qed.
+Lemma Gdesc p d : nth_error (n_procs N) p = Some d ->
+  (p = 0 /\ d = usr (cons_init_prog n 0)) \/ (p = 1 /\ d = bg [IExit]) \/ (p = 2 /\ d = bg (closer_prog 0)) \/
+  (exists j, j < n /\ p = 3 + j /\ d = wgp (gen_prog GEof)).
+Proof. intros H. cbn [gen_net n_procs] in H. apply nth_workers_inv in H. exact H. Qed.
+Lemma Gharm p d i : nth_error (n_procs N) p = Some d -> p <> 0 -> p <> 2 -> In i (d_prog d) -> harmless 0 i = true.
+Proof.
+  intros Hd H0 H2 Hi. apply Gdesc in Hd as [(-> & _)|[(-> & ->)|[(-> & _)|(j & _ & -> & ->)]]]; try congruence;
+    eapply harmless_forall; eauto; reflexivity.
+Qed.
+
+Definition alldone (s : state) : Prop := forall j, j < n -> isdone s (3 + j).
+
+Record g2 (s : state) : Prop := {
+  g_h : hinv N s;
+  g_c : cinv N n 0 s;
+  g_d : s_drop s = [];
+  g_w : forall j pr, j < n -> nth_error (s_procs s) (3 + j) = Some pr -> p_st pr = PRun -> p_pc pr < 3 \/ p_pc pr = 6;
+  g_q : s_canc s <> [] \/ closedb s 0 = true -> alldone s;
+  g_q2 : forall c, nth_error (s_procs s) 0 = Some c -> p_st c = PRun -> p_pc c = n + 5 -> alldone s
+}.
+
+(* a running worker is at the context test, at the generator call, at the send, or at the return *)
+Lemma worker_cur s j pr d i :
+  g2 s -> j < n -> cur_instr N s (3 + j) = Some (pr, d, i) ->
+  (p_pc pr = 0 /\ i = ICheck GOwn 1 6) \/ (p_pc pr = 1 /\ i = ISrc 0 GOwn 2 6 6) \/
+  (p_pc pr = 2 /\ i = ISend 0 GOwn 0 6 6) \/ (p_pc pr = 6 /\ i = IExit).
+Proof.
+  intros G Hj Hc. apply cur_instr_inv in Hc as (Hp & Hd & Hr & Hi). rewrite (Gw j Hj) in Hd. inv Hd. cbn [d_prog wgp] in Hi.
+  destruct (g_w _ G j pr Hj Hp Hr) as [Hlt|Heq].
+  - destruct (p_pc pr) as [|[|[|k]]]; [| | |lia]; cbn in Hi; inv Hi; auto 6.
+  - rewrite Heq in Hi. cbn in Hi. inv Hi. auto 6.
+Qed.
+
+Lemma cons_cur s c d i :
+  cur_instr N s 0 = Some (c, d, i) ->
+  (p_pc c = 0 /\ i = ICheck GOwn 1 (n + 6)) \/ (1 <= p_pc c <= n /\ i = ISpawn (3 + (p_pc c - 1)) (GId 2) (p_pc c + 1)) \/
+  (p_pc c = n + 1 /\ i = ISpawn 2 GOwn (n + 2)) \/ (p_pc c = n + 2 /\ i = IRecv 0 GOwn (n + 3) (n + 5) (n + 5)) \/
+  (p_pc c = n + 3 /\ i = IDeliver (n + 4)) \/ (p_pc c = n + 4 /\ i = ICheck GOwn (n + 2) (n + 6)) \/
+  (p_pc c = n + 5 /\ i = ICancel 1 (n + 6)) \/ (p_pc c = n + 6 /\ i = IExit).
+Proof.
+  intros H. apply (cur0 N n 0 G0) in H. apply cons_instr_cases in H as [(E & ->)|[(E & ->)|(m & E & Hm)]]; auto.
+  do 6 (destruct m as [|m]; [cbn in Hm; inv Hm; intuition lia|]). destruct m; discriminate.
+Qed.
+
+Lemma alldone_mono s l s' : step N s l = Some s' -> alldone s -> alldone s'.
+Proof. intros H A j Hj. eapply isdone_mono; eauto. Qed.
+
+(* the closer is past its wait: the iterator's context was cancelled, or every worker has returned *)
+Lemma closer_past_done s cl : g2 s -> nth_error (s_procs s) 2 = Some cl -> p_st cl = PRun -> 1 <= p_pc cl -> alldone s.
+Proof.
+  intros G Hcl Hr Hpc. destruct (ci_past _ _ _ _ (g_c _ G) cl Hcl) as [E|E]; [right; auto| |exact E].
+  apply (g_q _ G). left. eapply cancelled_nonempty; eauto.
+Qed.
+
+Lemma g2_step s l s' : internal l = true -> g2 s -> step N s l = Some s' -> g2 s'.
+Proof.
+  intros Hint G H. pose proof (alldone_mono _ _ _ H) as AM.
+  split.
+  - eapply hinv_step; eauto using hand_disc_gen_net, g_h.
+  - eapply (cinv_step N n 0 G0 G2 Gwk Gharm (wf_gen_net n GEof)); eauto using g_c.
+  - (* nothing is dropped *)
+    destruct (drop_cause N s l s' (g_h _ G) H) as [E|(p & pr & d & ch & g & ko & ke & kr & Hc & Hcause)]; [rewrite E; apply (g_d _ G)|].
+    exfalso. pose proof Hc as Hc0. apply cur_instr_inv in Hc as (Hp & Hd & Hr & Hi).
+    apply Gdesc in Hd as [(-> & ->)|[(-> & ->)|[(-> & ->)|(j & Hj & -> & ->)]]].
+    + apply cons_cur in Hc0. intuition discriminate.
+    + cbn [d_prog bg] in Hi. destruct (p_pc pr) as [|k]; [|destruct k]; cbn in Hi; discriminate.
+    + cbn [d_prog bg] in Hi. apply closer_instr in Hi. intuition discriminate.
+    + destruct (worker_cur _ _ _ _ _ G Hj Hc0) as [(_ & E)|[(_ & E)|[(_ & E)|(_ & E)]]]; try discriminate. inv E.
+      assert (A : alldone s).
+      { apply (g_q _ G). destruct Hcause as [E|E]; [left; eapply cancelled_nonempty; eauto|right; exact E]. }
+      destruct (A j Hj) as (w & Hw1 & Hw2). rewrite Hp in Hw1. inv Hw1. congruence.
+  - (* where the workers are *)
+    intros j pr' Hj Hp' Hr'.
+    destruct (pc_step _ _ _ _ _ _ H Hp' Hr') as [Same|[(E0 & _)|[(arm & pr & d & i & -> & Hc & Hin)|[(q & pr & d & ch & g & ko & ke & kr & -> & Hc & E)|(q & pr & d & ch & g & ki & ke & kr & -> & Hc & E)]]]].
+    + eapply (g_w _ G); eauto.
+    + lia.
+    + destruct (worker_cur _ _ _ _ _ G Hj Hc) as [(_ & ->)|[(_ & ->)|[(_ & ->)|(_ & ->)]]]; cbn [targets In] in Hin; intuition lia.
+    + destruct (worker_cur _ _ _ _ _ G Hj Hc) as [(_ & E1)|[(_ & E1)|[(_ & E1)|(_ & E1)]]]; inv E1. lia.
+    + destruct (worker_cur _ _ _ _ _ G Hj Hc) as [(_ & E1)|[(_ & E1)|[(_ & E1)|(_ & E1)]]]; discriminate.
+  - (* a context is cancelled / the pipe is closed only when every worker has returned *)
+    intros Hyp. destruct (closedb s 0) eqn:Ecl; [apply AM, (g_q _ G); auto|].
+    destruct (canc_by _ _ _ _ Hint H) as [Ec|(p & pr & d & c & k & -> & Hc)].
+    + destruct Hyp as [Hne|Hcl']; [rewrite Ec in Hne; apply AM, (g_q _ G); auto|].
+      destruct (closed_by _ _ _ _ _ H Ecl Hcl') as (p & pr & d & k & -> & Hc).
+      destruct (close_out_who N n 0 G0 G2 Gharm _ _ _ _ _ Hc) as (-> & Epc).
+      apply cur_instr_inv in Hc as (Hp & _ & Hr & _). apply AM. eapply closer_past_done; eauto. lia.
+    + apply AM. pose proof Hc as Hc0. apply cur_instr_inv in Hc as (Hp & Hd & Hr & Hi).
+      apply Gdesc in Hd as [(-> & ->)|[(-> & ->)|[(-> & ->)|(j & Hj & -> & ->)]]].
+      * apply cons_cur in Hc0. destruct Hc0 as [(_ & E)|[(_ & E)|[(_ & E)|[(_ & E)|[(_ & E)|[(_ & E)|[(Epc & E)|(_ & E)]]]]]]]; try discriminate.
+        eapply (g_q2 _ G); eauto.
+      * cbn [d_prog bg] in Hi. destruct (p_pc pr) as [|k0]; [|destruct k0]; cbn in Hi; discriminate.
+      * cbn [d_prog bg] in Hi. apply closer_instr in Hi as [(_ & E)|[(Epc & E)|[(_ & E)|(_ & E)]]]; try discriminate.
+        eapply closer_past_done; eauto. lia.
+      * destruct (worker_cur _ _ _ _ _ G Hj Hc0) as [(_ & E)|[(_ & E)|[(_ & E)|(_ & E)]]]; discriminate.
+  - (* the consumer cancels its iterator only after it saw the pipe closed / a context cancelled *)
+    intros c' Hc' Hr' Hpc'.
+    destruct (pc_step _ _ _ _ _ _ H Hc' Hr') as [Same|[(E0 & _)|[(arm & pr & d & i & -> & Hc & Hin)|[(q & pr & d & ch & g & ko & ke & kr & -> & Hc & E)|(q & pr & d & ch & g & ki & ke & kr & -> & Hc & E)]]]].
+    + apply AM. eapply (g_q2 _ G); eauto.
+    + lia.
+    + rewrite Hpc' in Hin. pose proof Hc as Hc0. apply cons_cur in Hc0.
+      destruct Hc0 as [(_ & ->)|[(Hk & ->)|[(_ & ->)|[(_ & ->)|[(_ & ->)|[(_ & ->)|[(_ & ->)|(_ & ->)]]]]]]]; cbn [targets In] in Hin; try (intuition lia).
+      apply AM, (g_q _ G). cbn [step] in H. rewrite Hc in H. apply cur_instr_inv in Hc as (Hp & _ & _ & _).
+      destruct (recv_err_cause _ _ _ _ _ _ _ _ _ _ _ _ _ Hp H Hc') as [E|E]; [lia|left; eapply cancelled_nonempty; eauto|right; exact E].
+    + apply cons_cur in Hc. intuition discriminate.
+    + apply cons_cur in Hc. destruct Hc as [(_ & E1)|[(_ & E1)|[(_ & E1)|[(_ & E1)|[(_ & E1)|[(_ & E1)|[(_ & E1)|(_ & E1)]]]]]]]; inv E1. lia.
+Qed.
+
+Lemma g2_init input : g2 (gen_init n input).
+Proof.
+  unfold gen_init, fanin_init. split.
+  - apply hinv_mk_init. intros pr [<-|[<-|[<-|Hin]]]; auto. unfold idles in Hin. apply repeat_spec in Hin. now subst.
+  - apply cinv_init. apply (ginv_gen_init n GEof input).
+  - reflexivity.
+  - intros j pr Hj Hp Hr. exfalso. unfold mk_init in Hp; cbn [s_procs] in Hp. rewrite nth3 in Hp.
+    apply nth_error_In in Hp. unfold idles in Hp. apply repeat_spec in Hp. subst. discriminate.
+  - intros [Hc|Hc]; [contradiction Hc; reflexivity|]. rewrite closedb_mk_init in Hc. discriminate.
+  - intros c Hc _ Hpc. cbn in Hc. inv Hc. cbn in Hpc. lia.
+Qed.
+
+Lemma g2_ireach input s : ireach N (gen_init n input) s -> g2 s.
+Proof. induction 1 as [|s l s' R IH Hi H]; [apply g2_init|eapply g2_step; eauto]. Qed.
+
+(* C01_generate_eof_no_drop *)
+Theorem gen_eof_no_drop input s :
+  reach N (gen_init n input) s -> s_stopped s = false -> s_drop s = [].
+Proof. intros R Hs. apply (g_d s). apply (g2_ireach input). apply reach_unstopped; auto. Qed.
+
+(* ... because the end of the stream cancels nothing: while a worker has not returned, no context is
+   cancelled and the pipe is open *)
+Theorem gen_eof_no_cancel input s :
+  reach N (gen_init n input) s -> s_stopped s = false -> (exists j, j < n /\ ~ isdone s (3 + j)) ->
+  s_canc s = [] /\ closedb s 0 = false.
+Proof.
+  intros R Hs (j & Hj & Hnd). pose proof (g2_ireach input s (reach_unstopped _ _ _ R Hs)) as G.
+  destruct (s_canc s) eqn:Ec; [destruct (closedb s 0) eqn:Ecl; [|auto]|]; exfalso; apply Hnd, (g_q _ G); auto.
+  left. rewrite Ec. discriminate.
+Qed.
+
+End GenEof.
+
+(* ---- the contrast: a generator whose end is a FAILURE (or is taken for one: an end-of-stream error that
+        wraps io.EOF compared with != instead of errors.Is) cancels the group, and a value another worker
+        has generated but not sent yet is dropped - in a run that nothing else aborted ---- *)
+Definition gen_fail_labels : list label :=
+  [LStep 0 false; LStep 0 false; LStep 0 false;     (* the consumer's first advance starts workers 3 and 4 *)
+   LStep 3 false; LStep 3 false;                    (* worker 3: ctx ok; the generator returns the value 1 *)
+   LStep 4 false; LStep 4 false;                    (* worker 4: ctx ok; the generator has no more values *)
+   LStep 4 false;                                   (* ... which cancels the group (GFail) / returns (GEof) *)
+   LStep 3 true].                                   (* worker 3's send: the ctx.Done arm *)
+
+Example gen_fail_drops_in_flight :
+  exists s, run_labels (gen_net 2 GFail) gen_fail_labels (gen_init 2 [1]%Z) = Some s /\
+            s_stopped s = false /\ s_drop s = [1]%Z /\ s_deliv s = [].
+Proof. eexists. split; [vm_compute; reflexivity|]. repeat split. Qed.
+
+Example gen_eof_cannot_drop_in_flight : run_labels (gen_net 2 GEof) gen_fail_labels (gen_init 2 [1]%Z) = None.
+Proof. vm_compute. reflexivity. Qed.
